@@ -402,7 +402,8 @@ def rule_window(ctx):
             s0, stop, st = (Poly.const(0), ar[0], Poly.const(1)) if len(ar) == 1 else ((ar[0], ar[1], Poly.const(1)) if len(ar) == 2 else ar)
             if (lo - (s0 + vis["k"] * st)).is_zero():
               found = True
-              d = stop - sym.mk("len", base)
+              from pcstatic import wtable as _wt
+              d = _wt.fold_len(stop - sym.mk("len", base))          # len of a comprehension is the len of what it runs over (a and b built over the same values)
               di = d.as_int()
               s0i = s0.as_int()
               if s0i is None or s0i < 0:
